@@ -110,6 +110,7 @@ func genCluster(c *Ctx) error {
 	}
 	if !c.Flag("journal") {
 		directedSnapshotRace(c)
+		directedShrinkGrowCatchUp(c)
 	}
 	for h := 0; h < nHist+len(directed); h++ {
 		var script []string
@@ -429,5 +430,83 @@ func directedSnapshotRace(c *Ctx) {
 		c.Count("directed.snapshot-race")
 		c.Nontrivial("snapshot-race-" + variant)
 		cs.End()
+	}
+}
+
+// directedShrinkGrowCatchUp: an application on the replica has read the whole database (through
+// the mount, in mount mode: the pages are in the kernel's page cache); while the replica is cut
+// off the primary shrinks the database and then grows it back with new content; the replica
+// catches up through the two transaction files without anybody looking at the file in between,
+// and the application reads again: it must see the primary's pages at the position reported.
+func directedShrinkGrowCatchUp(c *Ctx) {
+	r := c.Rng
+	for _, ps := range []int{1024, 4096} {
+		for _, wal := range []bool{false, true} {
+			cs := c.Begin()
+			do := func(op string) string { c.Count("op." + strings.Fields(op)[0]); return cs.Do(op) }
+			p := newPager(r, ps, func(op string) string { return do("n 0 " + op) })
+			p.journalMode = "DELETE"
+			states := func() {
+				for k := 0; k < 2; k++ {
+					st := do(fmt.Sprintf("n %d state", k))
+					if k == 0 {
+						if pos := posOf(st); pos != "" && !strings.HasPrefix(pos, "0:") {
+							do(fmt.Sprintf("hist %s %s", pos, p.refImageDigest()))
+						}
+					}
+					do(fmt.Sprintf("n %d ltx", k))
+					do(fmt.Sprintf("n %d raw", k))
+				}
+			}
+			observe := func() {
+				if out := do("sync"); out != "ok" {
+					c.Fail("shrink-grow catch-up: cluster did not settle: " + out)
+				}
+				states()
+			}
+			do("cluster 2")
+			do("allow 0")
+			do("up 0")
+			do("up 1")
+			do("sync")
+			do("n 0 createdb")
+			n := 8
+			first := txShape{newN: n, pages: map[int]bool{}, commit: true}
+			for pg := 1; pg <= n; pg++ {
+				first.pages[pg] = true
+			}
+			p.journalTx(first, 0, 0)
+			observe()
+			tx := func(s txShape) {
+				if wal {
+					p.walTx(s, false, false, false)
+				} else {
+					p.journalTx(s, 0, 0)
+				}
+			}
+			if wal {
+				p.wal = true
+				p.journalTx(txShape{newN: n, pages: map[int]bool{1: true}, commit: true}, 0, 0)
+				observe()
+			}
+			do("net 1 off")
+			tx(txShape{newN: n / 2, pages: map[int]bool{1: true}, commit: true})
+			only0 := do("n 0 state")
+			if pos := posOf(only0); pos != "" {
+				do(fmt.Sprintf("hist %s %s", pos, p.refImageDigest()))
+			}
+			grow := txShape{newN: n, pages: map[int]bool{1: true}, commit: true}
+			for pg := n/2 + 1; pg <= n; pg++ {
+				grow.pages[pg] = true
+			}
+			tx(grow)
+			do("net 1 on")
+			observe()
+			tx(txShape{newN: n, pages: map[int]bool{1: true, 2: true}, commit: true})
+			observe()
+			c.Count("directed.shrink-grow-catch-up")
+			c.Nontrivial(fmt.Sprintf("shrink-grow-catch-up-%d-%v", ps, wal))
+			cs.End()
+		}
 	}
 }
